@@ -242,7 +242,7 @@ def run_with_user(G, c, hl_cfg, E, run_calls, handler, kw):
         except Exception as e:  # noqa: BLE001
             raise core.Failure("get-engine-id-raised", repr(e))
         if (c["discovered"] or c["cfg"].engine_id) and got != E:
-            raise core.Failure("engine-id-not-learned", "get_engine_id() = %s, agent's engine id is %s" % (got.hex(), E.hex()))
+            raise core.Failure("engine-id-not-learned", "get_engine_id() = %r, agent's engine id is %r" % (got, E))
     return outs
 
 
